@@ -144,4 +144,15 @@ def c13(groups):
     return out
 
 
+# carrier A: DFCC-enforced function contracts on the loop-free helpers (no canary: the harness only calls the function,
+# the contract instrumentation generates the obligations; vacuity is guarded by the obligation count)
+for _f in ('rotate_left', 'rotate_right', 'flip_color'):
+    GROUPS.append(dict(name='tree_dfcc_' + _f, harness='qtreetbl/helpers_dfcc.c', entry='h_dfcc_' + _f, mode='dfcc', enforce=[_f], props=['C02', 'C11'],
+                       functions=[_f], units=U, strength='proof', timeout=300, require_canary=False, replay=False,
+                       bound='none (loop-free; arbitrary fresh nodes)'))
+
+GROUPS.append(dict(name='tree_dfcc_move_red_right', harness='qtreetbl/helpers_dfcc.c', entry='h_dfcc_move_red_right', mode='dfcc', enforce=['move_red_right'],
+                   replace=['flip_color', 'rotate_right'], props=['C02', 'C11'], functions=['move_red_right', 'flip_color (by contract)', 'rotate_right (by contract)'],
+                   units=U, strength='proof', timeout=300, require_canary=False, replay=False, bound='none (loop-free; callee bodies replaced by their contracts)'))
+
 GROUPS = GROUPS + c13(GROUPS)
